@@ -43,6 +43,7 @@ pub fn lookup<N: nd::Nd>(name: &str) -> Option<fn(&mut N)> {
         .or_else(|| p_c01::wtx4::LTX4::<N>(name))
         .or_else(|| p_c13::w8::L8::<N>(name))
         .or_else(|| p_c13::w20::L20::<N>(name))
+        .or_else(|| p_c13::wr::LR::<N>(name))
         .or_else(|| p_c13::ww::LW::<N>(name))
         .or_else(|| p_c13::ww5::LW5::<N>(name))
         .or_else(|| p_c15::ws::LS::<N>(name))
